@@ -218,6 +218,8 @@ PROFILES = {
                  feats={"group", "look", "atomic", "bref", "bex", "cond", "lazy"}),
     "wild": dict(chars=["a", "b", "E", "T", "Q"], asserts=["bol", "eol", "wb", "nwb", "lwb", "rwb", "eolz"], unrestricted=True, allow_f1=True,
                  feats={"group", "look", "lookb", "atomic", "bref", "bex", "cond", "keep", "cont", "lazy", "possessive", "dotnl", "names"}),
+    "wildlb": dict(chars=["a", "b"], asserts=["bol", "eol", "wb"], unrestricted=False, allow_f1=True,
+                   feats={"group", "look", "lookb", "atomic", "bref", "bex", "cond", "keep", "lazy", "possessive"}),
     "named": dict(chars=["a", "b", "c"], asserts=["eol", "wb"], feats={"group", "names", "lazy", "look", "bref"}),
     "plain": dict(chars=["a", "b", "c", "E", "N", "D"], asserts=["bol", "eol", "wb", "nwb", "mbol", "meol"],
                   feats={"group", "lazy", "dotnl", "casei", "names"}),
